@@ -42,6 +42,8 @@ enum Leaf {
     Val { unit: Option<u32>, inner: Box<Leaf>, nign: u8, named: bool },
     Opt { present: bool, inner: Box<Leaf> },
     Wrap { w: Wrapper, inner: Box<Leaf> },
+    /// the field carries #[metrics(format = PlusOne)] (only at the top of a field's leaf, never with a unit)
+    Fmt { inner: Box<Leaf> },
 }
 #[derive(Clone, Debug, PartialEq)]
 enum Kind {
@@ -110,6 +112,7 @@ fn enc_leaf(l: &Leaf) -> Sx {
         Leaf::Val { unit, inner, nign, named } => sx::tag(3, vec![ounit(unit), enc_leaf(inner), sx::n(*nign), sx::boolean(*named)]),
         Leaf::Opt { present, inner } => sx::tag(4, vec![sx::boolean(*present), enc_leaf(inner)]),
         Leaf::Wrap { w, inner } => sx::tag(5, vec![enc_wrapper(w), enc_leaf(inner)]),
+        Leaf::Fmt { inner } => sx::tag(6, vec![enc_leaf(inner)]),
     }
 }
 fn enc_fields(fs: &[Field]) -> Sx {
@@ -187,6 +190,7 @@ fn dec_leaf(x: &Sx) -> Leaf {
         },
         3 => Leaf::Val { unit: dunit(x.arg(0)), inner: Box::new(dec_leaf(x.arg(1))), nign: x.arg(2).num() as u8, named: x.arg(3).num() != 0 },
         5 => Leaf::Wrap { w: dec_wrapper(x.arg(0)), inner: Box::new(dec_leaf(x.arg(1))) },
+        6 => Leaf::Fmt { inner: Box::new(dec_leaf(x.arg(0))) },
         _ => Leaf::Opt { present: x.arg(0).num() != 0, inner: Box::new(dec_leaf(x.arg(1))) },
     }
 }
@@ -313,6 +317,7 @@ impl Render {
                 (format!("Option<{ity}>"), if *present { format!("Some({iex})") } else { "None".into() })
             }
             Leaf::Wrap { w, inner } => { let (ity, iex) = self.leaf(inner); Self::wrap(w, ity, iex) }
+            Leaf::Fmt { inner } => self.leaf(inner),
         }
     }
 
@@ -342,6 +347,7 @@ impl Render {
                 let mut a = vec![];
                 if let Some(n) = name { a.push(format!("name = {}", lit(n))); }
                 if let Some(u) = unit { a.push(format!("unit = {}", UNITS[*u as usize].0)); }
+                if matches!(v, Leaf::Fmt { .. }) { a.push("format = PlusOne".into()); }
                 if *sg { a.push("sample_group".into()); }
                 (a, ty, ex)
             }
@@ -487,7 +493,7 @@ use metrique::{CloseValue, RootEntry};
 use metrique::concat::{Concatenated, ConstStr, const_str_value};
 use metrique::unit::{Count, Percent, Second, Millisecond, Microsecond, Byte, Kilobyte, Megabyte, Bit, BytePerSecond, Kilobit, Gigabyte, TerabitPerSecond};
 use metrique::writer::{Entry, EntryWriter, EntryConfig, MetricFlags, Observation, Unit, ValidationError, Value, ValueWriter};
-use metrique::writer::value::{FlagConstructor, ForceFlag, MetricOptions, WithDimensions};
+use metrique::writer::value::{FlagConstructor, ForceFlag, MetricOptions, ValueFormatter, WithDimensions};
 use std::borrow::Cow;
 use std::fmt::Write as _;
 use std::time::{Duration, SystemTime, UNIX_EPOCH};
@@ -517,6 +523,15 @@ impl MetricOptions for MyFlagOpt {}
 struct MyFlagCtor;
 impl FlagConstructor for MyFlagCtor {
     fn construct() -> MetricFlags<'static> { MetricFlags::upcast(&MyFlagOpt) }
+}
+
+/// The test formatter of #[metrics(format = PlusOne)]: u64 n is written as the metric n+1 in Count
+/// (lifted over Option / Arc by the blanket impls of ValueFormatter).
+struct PlusOne;
+impl ValueFormatter<u64> for PlusOne {
+    fn format_value(writer: impl ValueWriter, value: &u64) {
+        writer.metric([Observation::Unsigned(value.wrapping_add(1))], Unit::Count, [], MetricFlags::empty())
+    }
 }
 
 /// Records what a Value does with its ValueWriter.
@@ -899,6 +914,13 @@ impl Gen {
             };
             return (l, None);
         }
+        if depth == 0 && self.rng.chance(1, 12) {
+            // #[metrics(format = PlusOne)] on a u64 (also through Option and the Mutex forms that close to Option<u64>)
+            let ty = *self.rng.pick(&[0u8, 0, 9, 10]);
+            let num = Leaf::Num { o: Obs::U(*self.rng.pick(&[0, 41, u64::MAX, 1 << 40])), u: 0, ty };
+            let inner = if self.rng.chance(1, 3) { Leaf::Opt { present: self.rng.chance(2, 3), inner: Box::new(num) } } else { num };
+            return (Leaf::Fmt { inner: Box::new(inner) }, None);
+        }
         let l = match self.rng.below(12) {
             // by reference only &'static str and Arc<String> can be closed
             0 | 1 => Leaf::Str { s: self.text(), ty: if by_ref { *self.rng.pick(&[0u8, 0, 2]) } else { self.rng.below(4) as u8 } },
@@ -1126,7 +1148,7 @@ fn count_tree(d: &Def, depth: u32, out: &mut Out) {
                 if name.is_some() { out.count("field_name_override"); }
                 if unit.is_some() { out.count("field_unit"); }
                 if *sg { out.count("field_sample_group"); }
-                out.count(match v { Leaf::Num { .. } => "leaf_num", Leaf::Str { .. } => "leaf_str", Leaf::Enum { .. } => "leaf_value_enum", Leaf::Val { .. } => "leaf_value_struct", Leaf::Opt { present: true, .. } => "leaf_option_some", Leaf::Opt { .. } => "leaf_option_none", Leaf::Wrap { .. } => "leaf_with_dimensions_or_force_flag" });
+                out.count(match v { Leaf::Num { .. } => "leaf_num", Leaf::Str { .. } => "leaf_str", Leaf::Enum { .. } => "leaf_value_enum", Leaf::Val { .. } => "leaf_value_struct", Leaf::Opt { present: true, .. } => "leaf_option_some", Leaf::Opt { .. } => "leaf_option_none", Leaf::Wrap { .. } => "leaf_with_dimensions_or_force_flag", Leaf::Fmt { .. } => "leaf_formatted" });
             }
             Kind::Flatten { p, o, d } => {
                 out.count(match p { None => "flatten", Some(Pfx::Infl(_)) => "flatten_prefix", Some(Pfx::Exact(_)) => "flatten_exact_prefix" });
